@@ -16,7 +16,7 @@ from buidl.helper import (
     read_varstr,
     serialize_key_value,
 )
-from buidl.op import op_code_to_number
+from buidl.op import number_to_op_code, op_code_to_number
 from buidl.script import (
     RedeemScript,
     Script,
@@ -235,6 +235,25 @@ Path: {self.root_fingerprint.hex()}:{self.root_path}
             current = current.child(child_index)
             remainder = remainder[4:]
         return current.point == named_pubkey
+
+
+def _check_basic_multisig(script, quorum_m, quorum_n, named_pubs, where):
+    """script must be exactly OP_m <the n named keys> OP_n OP_CHECKMULTISIG and
+    every key must come from a different cosigner (root fingerprint)"""
+    commands = script.commands
+    if (
+        len(commands) != quorum_n + 3
+        or commands[0] != number_to_op_code(quorum_m)
+        or commands[-2] != number_to_op_code(quorum_n)
+        or commands[-1] != 174
+        or sorted(commands[1:-2], key=repr) != sorted(named_pubs.keys(), key=repr)
+    ):
+        raise SuspiciousTransaction(f"{where} is not a plain m-of-n multisig script")
+    xfps = {named_pub.root_fingerprint for named_pub in named_pubs.values()}
+    if len(xfps) != len(named_pubs):
+        raise SuspiciousTransaction(
+            f"{where} has more than one key from the same root fingerprint"
+        )
 
 
 class PSBT:
@@ -718,6 +737,14 @@ Extra:\n{self.extra_map}
                         f"Previous input(s) set a max quorum of threshold of {inputs_quorum_n}, but this input is {input_quorum_n}"
                     )
 
+            _check_basic_multisig(
+                script_for_psbtin,
+                input_quorum_m,
+                input_quorum_n,
+                psbt_in.named_pubs,
+                f"input #{cnt}",
+            )
+
             spend_addr = script_for_psbtin.address(network=self.network)
 
             bip32_derivs = []
@@ -833,6 +860,14 @@ Extra:\n{self.extra_map}
                         f"{len(hdpubkey_map)} xpubs supplied != {len(psbt_out.named_pubs)} named_pubs in PSBT change output."
                         "You may be able to get this wallet to cosign a sweep transaction (1-output) instead."
                     )
+
+                _check_basic_multisig(
+                    script_for_psbtout,
+                    output_quorum_m,
+                    output_quorum_n,
+                    psbt_out.named_pubs,
+                    f"output #{cnt}",
+                )
 
                 bip32_derivs = []
                 for named_pub in psbt_out.named_pubs.values():
